@@ -104,7 +104,9 @@ def shape(rng, w, nv):
         lhs = ["add", ["add", x, k()], k()]
     elif s == 14:
         n = rng.choice([1, 2])
-        return [cmp_, ["and", ["zext", n, x], ["bvv", m, w + n]], k(w + n)]
+        # (masks of low ones ending below, at and above the width of the extended value)
+        mk_ = rng.choice([m, m, (1 << rng.randrange(1, w + n + 1)) - 1, m >> 1, (m << 1) | 1])
+        return [cmp_, ["and", ["zext", n, x], ["bvv", mk_ & ((1 << (w + n)) - 1), w + n]], k(w + n)]
     elif s == 15:
         hi = rng.randrange(w)
         return [cmp_, ["extract", hi, 0, ["add", x, k()]], k(hi + 1)]
